@@ -432,5 +432,17 @@ def main(argv=None):
     return exit_code
 
 
+def _main_guarded():
+    try:
+        return main()
+    except SystemExit:
+        raise
+    except BaseException as e:      # a crash of the checker is a checker error (exit 3), never a verdict
+        traceback.print_exc()
+        pid = sys.argv[1] if len(sys.argv) > 1 else '?'
+        print('CHECKER-ERROR property=%s the checker crashed: %s: %s' % (pid, type(e).__name__, str(e)[:300]))
+        sys.exit(3)
+
+
 if __name__ == '__main__':
-    sys.exit(main())
+    sys.exit(_main_guarded())
